@@ -139,9 +139,10 @@ def run_script(rp, script):
                 s._queue_sched.put((list(m['cancel']), s._CANCEL))
         s._cancel_list.extend(it['marks'])
         s._named_envs.extend('env.%d' % e for e in it['envs'])
-        for uid in it['unsched']:
-            if uid in tasks:
-                s._queue_unsched.put(tasks[uid])
+        for msg in it['unsched']:
+            ts = [tasks[uid] for uid in msg if uid in tasks]
+            if ts:
+                s._queue_unsched.put(ts if len(ts) > 1 else ts[0])
 
     orig_unsched = s._unschedule_completed
     def wrapped():
@@ -149,6 +150,7 @@ def run_script(rp, script):
         i = state['i']
         slots = [[uid, canon_slots(t.get('slots'))] for uid, t in tasks.items() if t.get('slots')]
         out.append({'events': s.events[:], 'state': snapshot(rp, s, None), 'slots': slots,
+                    'queued': sum(len(x) if isinstance(x, list) else 1 for x in s._queue_unsched.items),
                     'exc': {uid: t.get('exception') for uid, t in tasks.items() if t.get('exception')}})
         del s.events[:]
         state['i'] += 1
@@ -254,6 +256,8 @@ def fill_releases(rp, script):
     holding, done = [], set()
     for k in range(len(sc['iters'])):
         sc['iters'][k]['unsched'] = []
+    if sc.get('big'):
+        return fill_releases_big(rp, sc, rng)
     # iterate: run prefix, see who started, choose releases for the next iteration
     for k in range(len(sc['iters'])):
         pre = copy.deepcopy(sc); pre['iters'] = pre['iters'][:k + 1]
@@ -267,7 +271,12 @@ def fill_releases(rp, script):
             rel = [u for u in holding if rng.random() < sc['release_p']]
             for u in rel:
                 holding.remove(u); done.add(u)
-            sc['iters'][k + 1]['unsched'] = rel
+            # the executor publishes one task or a bulk of tasks per message
+            msgs = []
+            while rel:
+                n = rng.choice([1, 1, 2, 3, len(rel)]) if not sc.get('big') else rng.choice([1, 40, 200, 300, len(rel)])
+                msgs.append(rel[:n]); rel = rel[n:]
+            sc['iters'][k + 1]['unsched'] = msgs
     return sc
 
 
@@ -275,6 +284,37 @@ def model_op(script):
     return {'op': 'sched', 'cfg': script['cfg'], 'nodes': script['nodes'],
             'iters': [{'incoming': it['incoming'], 'marks': it['marks'], 'envs': it['envs'],
                        'unsched': it['unsched']} for it in script['iters']]}
+
+
+def fill_releases_big(rp, sc, rng):
+    """large script: everything that started is released in ONE iteration (many messages), so the
+    512-task bulk limit of the drain is crossed; the remaining iterations let the queue run empty"""
+    pre = copy.deepcopy(sc); pre['iters'] = pre['iters'][:2]
+    s, out, tasks, crash = run_script(rp, pre)
+    started = [uid for o in out for uid, st in o['events'] if st == 'AGENT_EXECUTING_PENDING']
+    rng.shuffle(started)
+    msgs = []
+    while started:
+        n = rng.choice([1, 1, 1, 7, 100, 300])
+        msgs.append(started[:n]); started = started[n:]
+    sc['iters'][2]['unsched'] = msgs
+    return sc
+
+
+def gen_big_script(rng):
+    nn, cpn = rng.choice([(9, 64), (5, 128), (10, 60)])
+    cfg = {'cpn': cpn, 'gpn': 0, 'lfs': 0, 'mem': 0, 'scattered': True}
+    nodes = [{'index': i, 'cores': [0] * cpn, 'gpus': [], 'lfs': 0, 'mem': 0} for i in range(nn)]
+    total = nn * cpn
+    ntasks = rng.randint(520, min(total, 640))
+    reqs = [{'uid': u, 'ranks': 1, 'cpr': 1, 'gpr': 0, 'lfs': 0, 'mem': 0, 'rpn': 0, 'colo': None, 'excl': False,
+             'prio': 0, 'env': None, 'app': None} for u in range(ntasks)]
+    half = ntasks // 2
+    iters = [{'incoming': [{'sched': reqs[:half]}], 'marks': [], 'envs': [], 'unsched': []},
+             {'incoming': [{'sched': reqs[half:]}], 'marks': [], 'envs': [], 'unsched': []}]
+    iters += [{'incoming': [], 'marks': [], 'envs': [], 'unsched': []} for _ in range(4)]
+    return {'cfg': cfg, 'nodes': nodes, 'iters': iters, 'release_p': 1.0, 'release_seed': rng.randrange(10 ** 9),
+            'big': True}
 
 
 def canon_impl(out, crash):
@@ -286,7 +326,7 @@ def canon_impl(out, crash):
         res.append({'events': [list(e) for e in o['events']],
                     'nodes': st['nodes'], 'offset': st['offset'], 'active': st['active'],
                     'waitpool': [w for w in st['waitpool'] if w[1]], 'colo': sorted(st['colo']),
-                    'tagged': st['tagged'], 'cancel': st['cancel'],
+                    'tagged': st['tagged'], 'cancel': st['cancel'], 'queued': o['queued'],
                     'slots': sorted([x for x in o['slots']])})
     return res
 
@@ -302,7 +342,7 @@ def canon_model(m):
         res.append({'events': [list(e) for e in o['events']],
                     'nodes': st['nodes'], 'offset': st['offset'], 'active': st['active'],
                     'waitpool': [w for w in st['waitpool'] if w[1]], 'colo': sorted(st['colo']),
-                    'tagged': sorted(st['tagged']), 'cancel': st['cancel'],
+                    'tagged': sorted(st['tagged']), 'cancel': st['cancel'], 'queued': st['queued'],
                     'slots': sorted([x for x in o['slots']])})
     return res
 
@@ -390,9 +430,11 @@ def monitor(rp, script, out, tasks, crash, props):
                 if reqs[uid]['colo'] is None and fits_idle(rp, script, reqs[uid]):
                     viol.append(('C04', tag + 'fitting-task-failed-for-resources', 'task %d fits the idle pilot' % uid))
         # releases of this iteration (they happen at its end)
-        for uid in it['unsched']:
-            if uid in held:
-                del held[uid]
+        for msg in it['unsched']:
+            for uid in msg:
+                if uid in held:
+                    del held[uid]
+        queue_empty = (o['queued'] == 0)
         # ---- C01: oversubscription among the held placements
         cores, gpus, lfs, mem = defaultdict(list), defaultdict(int), defaultdict(int), defaultdict(int)
         for uid, sl in held.items():
@@ -432,10 +474,10 @@ def monitor(rp, script, out, tasks, crash, props):
                         if g < len(exp[x[0]][2]): exp[x[0]][2][g] = 1
                     exp[x[0]][3] -= x[3]; exp[x[0]][4] -= x[4]
         got = {n[0]: n for n in o['state']['nodes']}
-        if got != exp:
+        if queue_empty and got != exp:
             kind = 'capacity-not-restored' if not held else 'node-map-differs-from-held'
             viol.append(('C03', tag + kind, 'iteration %d: node map %s, expected %s' % (k, sorted(got.values()), sorted(exp.values()))))
-        if o['state']['active'] != len(held):
+        if queue_empty and o['state']['active'] != len(held):
             viol.append(('C03', tag + 'active-count-wrong', 'iteration %d: _active_cnt %d, %d tasks hold resources' % (k, o['state']['active'], len(held))))
         # ---- C04: every task in exactly one place
         wp = set(u for _, us in o['state']['waitpool'] for u in us)
@@ -455,6 +497,6 @@ def monitor(rp, script, out, tasks, crash, props):
             envs_known = set(e for j in range(k + 1) for e in script['iters'][j]['envs'])
             cand = [u for u in wp if (reqs[u]['env'] is None or reqs[u]['env'] in envs_known) and reqs[u]['colo'] is None]
             if cand and len(cand) == len(wp) and all(fits_idle(rp, script, reqs[u]) for u in cand) \
-               and it['unsched']:
+               and it['unsched'] and queue_empty:
                 idle_pending = set(cand)
     return [v for v in viol if v[0] in props]
